@@ -1,13 +1,18 @@
 (** C05 -- Form factors obey bounds, reciprocity, closure and similarity invariance.
     Only theorem statements, each closed by [exact].
 
+    Similarity: with cut-off 0 (the code as repaired in /repo) the Stokes value is the cut-off-free
+    double Boole sum (5c); that sum is invariant under translations (5b), under every linear map
+    preserving inner products composed with a translation (5d), under uniform scaling by s > 0 with
+    the area scaled by s*s (5e); the 48 signed axis permutations keep the value for EVERY cut-off (5f).
+
     NOT carried by any theorem (see NOT_CARRIED in harness/props/C05.py): F <= 1, the 2.5 % closure
-    of a closed room, every statement about the Nusselt branch, invariance under rotations and
-    scalings (false for the code with its cut-off: known finding; for [stokes_nocut] not proved). *)
-From Coq Require Import List Arith Bool.
+    of a closed room, every statement about the Nusselt branch. *)
+From Coq Require Import List Arith Bool Permutation.
 Import ListNotations.
 From SV Require Import Base.Ops Base.Arr Base.Sums Model.Vec3 Model.Exchange Model.Scene Model.Stokes
-  Proofs.FieldFacts Proofs.BooleExact Proofs.StokesAssembly Proofs.StokesSum.
+  Spec.Isometry Proofs.FieldFacts Proofs.BooleExact Proofs.StokesAssembly Proofs.StokesSum
+  Proofs.StokesSimilarity.
 
 (** (1) a pair that is not in the visible list has an exactly zero entry in the assembled
     form-factor matrix (zero initialised, only listed pairs are written), an exactly zero full
@@ -89,7 +94,7 @@ Proof. exact (stokes_cut_is_nocut cut pi pj a). Qed.
 Print Assumptions C05_similarity_cut_is_nocut.
 
 (** (5b, partial) translation invariance -- of the code's value (cut-off included: the rule looks at
-    coordinate differences only) and of the cut-off-free sum.  Rotations and scalings: not carried. *)
+    coordinate differences only) and of the cut-off-free sum.  Rotations, scalings, axis permutations: (5d), (5e), (5f) below. *)
 Theorem C05_similarity_partial {T} {O : Ops T} {RL : RingLaws T} (cut : T) (t : @vec T)
     (pi pj : list (@vec T)) (a : T) :
   stokes_integration cut (map (fun p => vadd p t) pi) (map (fun p => vadd p t) pj) a =
@@ -100,3 +105,84 @@ Proof.
               (stokes_gen_translate (fun _ => true) t pi pj a)).
 Qed.
 Print Assumptions C05_similarity_partial.
+
+(** (5c) cut-off 0, i.e. the code's [np.abs(x[-1]-x[0]) > 0]: a skipped segment has extent exactly 0,
+    its Boole term is 0, so the value is the cut-off-free double Boole sum -- for ALL patches *)
+Theorem C05_similarity_cut0 {T} {O : Ops T} {RL : RingLaws T} {OL : OrderLaws T} {FL : FieldLaws T}
+    {AL : AbsLaws T} (pi pj : list (@vec T)) (a : T) :
+  stokes_integration 0%T pi pj a = stokes_nocut pi pj a.
+Proof. exact (stokes_cut0_is_nocut pi pj a). Qed.
+Print Assumptions C05_similarity_cut0.
+
+(** (5d) rigid motions [x |-> M x + t] with [M] preserving inner products (equivalently [M^T M = I]:
+    rotations, mirrorings): the cut-off-free sum and the code's value with cut-off 0 are unchanged.
+    Ordered field; [tsqrt] and [tln] are uninterpreted (the entries only see [<p-q, p-q>]). *)
+Theorem C05_similarity_isometry {T} {O : Ops T} {RL : RingLaws T} {OL : OrderLaws T} {FL : FieldLaws T}
+    {AL : AbsLaws T} (M : @mat T) (t : @vec T) (pi pj : list (@vec T)) (a : T) :
+  (forall x y, vdot (mapply M x) (mapply M y) = vdot x y) ->
+  stokes_nocut (map (fun x => vadd (mapply M x) t) pi) (map (fun x => vadd (mapply M x) t) pj) a =
+    stokes_nocut pi pj a /\
+  stokes_integration 0%T (map (fun x => vadd (mapply M x) t) pi) (map (fun x => vadd (mapply M x) t) pj) a =
+    stokes_integration 0%T pi pj a.
+Proof.
+  intros H. exact (conj (stokes_nocut_rigid M t pi pj a H) (stokes_cut0_rigid M t pi pj a H)).
+Qed.
+Print Assumptions C05_similarity_isometry.
+
+(** (5d') the same for [M^T M = I] as defined in Spec/Isometry.v *)
+Theorem C05_similarity_orthogonal {T} {O : Ops T} {RL : RingLaws T} {OL : OrderLaws T} {FL : FieldLaws T}
+    {AL : AbsLaws T} (M : @mat T) (t : @vec T) (pi pj : list (@vec T)) (a : T) :
+  orthogonal M ->
+  stokes_nocut (map (fun x => vadd (mapply M x) t) pi) (map (fun x => vadd (mapply M x) t) pj) a =
+    stokes_nocut pi pj a /\
+  stokes_integration 0%T (map (fun x => vadd (mapply M x) t) pi) (map (fun x => vadd (mapply M x) t) pj) a =
+    stokes_integration 0%T pi pj a.
+Proof.
+  intros H. exact (conj (stokes_nocut_orthogonal M t pi pj a H) (stokes_cut0_orthogonal M t pi pj a H)).
+Qed.
+Print Assumptions C05_similarity_orthogonal.
+
+(** (5e) uniform scaling by [s > 0], the area scaled by [s*s]: unchanged, provided the sampled
+    boundaries of the two patches are at positive distance (true whenever the Stokes branch is
+    taken: the patches do not touch), [pi <> 0] and the area is not 0.  Uses
+    [ln (x y) = ln x + ln y] for positive x, y ([LnLaws]) and [SqrtLaws]; the [ln s] term
+    multiplies the sum of the step vectors of a closed polygon, which is 0. *)
+Theorem C05_similarity_scaling {T} {O : Ops T} {RL : RingLaws T} {OL : OrderLaws T} {FL : FieldLaws T}
+    {SL : SqrtLaws T} {LL : LnLaws T} (s : T) (pi pj : list (@vec T)) (a : T) :
+  (0 < s)%T ->
+  (forall p q, In p (sample_pts 5 pi) -> In q (sample_pts 5 pj) -> (0 < vnorm (vsub p q))%T) ->
+  tpi <> 0%T -> a <> 0%T ->
+  stokes_nocut (map (vscale s) pi) (map (vscale s) pj) ((s * s) * a)%T = stokes_nocut pi pj a /\
+  stokes_integration 0%T (map (vscale s) pi) (map (vscale s) pj) ((s * s) * a)%T =
+    stokes_integration 0%T pi pj a.
+Proof.
+  intros Hs Hpos Hpi Ha.
+  exact (conj (stokes_nocut_scale s Hs pi pj Hpos a Hpi Ha) (stokes_cut0_scale s Hs pi pj Hpos a Hpi Ha)).
+Qed.
+Print Assumptions C05_similarity_scaling.
+
+(** (5e') the double sum itself picks up the factor [s*s] (no condition on [pi] or the area) *)
+Theorem C05_similarity_scaling_sum {T} {O : Ops T} {RL : RingLaws T} {OL : OrderLaws T} {FL : FieldLaws T}
+    {SL : SqrtLaws T} {LL : LnLaws T} (s : T) (pi pj : list (@vec T)) :
+  (0 < s)%T ->
+  (forall p q, In p (sample_pts 5 pi) -> In q (sample_pts 5 pj) -> (0 < vnorm (vsub p q))%T) ->
+  stokes_outer (fun _ => true) (map (vscale s) pi) (map (vscale s) pj) =
+    ((s * s) * stokes_outer (fun _ => true) pi pj)%T.
+Proof. intros Hs Hpos. exact (stokes_outer_nocut_scale s Hs pi pj Hpos). Qed.
+Print Assumptions C05_similarity_scaling_sum.
+
+(** (5f) the 48 signed axis permutations [p |-> (e0 p[sigma 0], e1 p[sigma 1], e2 p[sigma 2])] keep
+    the code's value for EVERY cut-off: the segment rule sees |e_d x| = |x|, both patches carry the
+    same sign, and the three coordinate sums are reordered. *)
+Theorem C05_similarity_axis_permutation {T} {O : Ops T} {RL : RingLaws T} {OL : OrderLaws T}
+    {FL : FieldLaws T} {AL : AbsLaws T} (sigma : nat -> nat) (e0 e1 e2 cut : T)
+    (pi pj : list (@vec T)) (a : T) :
+  Permutation [sigma 0; sigma 1; sigma 2] [0; 1; 2] ->
+  (e0 = 1 \/ e0 = - (1))%T -> (e1 = 1 \/ e1 = - (1))%T -> (e2 = 1 \/ e2 = - (1))%T ->
+  let m := fun p : @vec T =>
+    mkv (e0 * coord (sigma 0%nat) p)%T (e1 * coord (sigma 1%nat) p)%T (e2 * coord (sigma 2%nat) p)%T in
+  stokes_integration cut (map m pi) (map m pj) a = stokes_integration cut pi pj a.
+Proof.
+  intros Hp H0 H1 H2. exact (stokes_integration_sperm sigma e0 e1 e2 Hp H0 H1 H2 cut pi pj a).
+Qed.
+Print Assumptions C05_similarity_axis_permutation.
